@@ -112,26 +112,63 @@ pub fn idle() {
 }
 
 #[cfg(not(miri))]
-mod imp {
-    use super::*;
-
-    unsafe fn wr(s: &[u8]) {
-        libc::write(1, s.as_ptr() as *const libc::c_void, s.len());
+unsafe fn wr(s: &[u8]) {
+    libc::write(1, s.as_ptr() as *const libc::c_void, s.len());
+}
+#[cfg(not(miri))]
+unsafe fn wr_hex(mut v: usize) {
+    let mut buf = [0u8; 18];
+    let mut i = 18;
+    loop {
+        i -= 1;
+        let d = (v & 15) as u8;
+        buf[i] = if d < 10 { b'0' + d } else { b'a' + d - 10 };
+        v >>= 4;
+        if v == 0 {
+            break;
+        }
     }
-    unsafe fn wr_hex(mut v: usize) {
-        let mut buf = [0u8; 18];
-        let mut i = 18;
-        loop {
-            i -= 1;
-            let d = (v & 15) as u8;
-            buf[i] = if d < 10 { b'0' + d } else { b'a' + d - 10 };
-            v >>= 4;
-            if v == 0 {
-                break;
+    wr(&buf[i..]);
+}
+
+/// M-return watchdog thread: a call that has not returned HANG_MS after its call event
+#[cfg(not(miri))]
+fn start_watchdog() {
+    let limit: u64 = std::env::var("VERIF_HANG_MS").ok().and_then(|s| s.parse().ok()).unwrap_or(60_000);
+    std::thread::spawn(move || loop {
+        std::thread::sleep(std::time::Duration::from_millis(500));
+        let now = now_ms();
+        let nt = N_THREADS.load(Ordering::SeqCst).min(MAX_THREADS);
+        for i in 0..nt {
+            let t = HEART[i].load(Ordering::Relaxed);
+            if t != 0 && now > t + limit {
+                unsafe {
+                    wr(b"\nNO-RETURN after ms=0x");
+                    wr_hex((now - t) as usize);
+                    wr(b" case=");
+                    let tab = std::ptr::addr_of!(TID_TABLE) as *const (i64, usize);
+                    let (_, p) = tab.add(i).read();
+                    if p != 0 {
+                        let p = p as *const u8;
+                        let mut len = 0;
+                        while len < CRUMB_LEN && *p.add(len) != 0 {
+                            len += 1;
+                        }
+                        wr(std::slice::from_raw_parts(p, len));
+                    }
+                    wr(b"\n");
+                    libc::_exit(76);
+                }
             }
         }
-        wr(&buf[i..]);
-    }
+    });
+}
+
+// Guarded arenas (mmap + PROT_NONE pages).  With `--cfg verif_heap` (ASan and memcheck builds) and under Miri the
+// arena hands out exact-size heap allocations instead, so that the tool's own red zones / bounds do the watching.
+#[cfg(not(any(miri, verif_heap)))]
+mod imp {
+    use super::*;
 
     extern "C" fn on_segv(_sig: libc::c_int, info: *mut libc::siginfo_t, _ctx: *mut libc::c_void) {
         unsafe {
@@ -188,35 +225,7 @@ mod imp {
             libc::sigaction(libc::SIGSEGV, &sa, std::ptr::null_mut());
             libc::sigaction(libc::SIGBUS, &sa, std::ptr::null_mut());
         }
-        // M-return watchdog: a call that has not returned HANG_MS after its call event
-        let limit: u64 = std::env::var("VERIF_HANG_MS").ok().and_then(|s| s.parse().ok()).unwrap_or(60_000);
-        std::thread::spawn(move || loop {
-            std::thread::sleep(std::time::Duration::from_millis(500));
-            let now = now_ms();
-            let nt = N_THREADS.load(Ordering::SeqCst).min(MAX_THREADS);
-            for i in 0..nt {
-                let t = HEART[i].load(Ordering::Relaxed);
-                if t != 0 && now > t + limit {
-                    unsafe {
-                        wr(b"\nNO-RETURN after ms=0x");
-                        wr_hex((now - t) as usize);
-                        wr(b" case=");
-                        let tab = std::ptr::addr_of!(TID_TABLE) as *const (i64, usize);
-                        let (_, p) = tab.add(i).read();
-                        if p != 0 {
-                            let p = p as *const u8;
-                            let mut len = 0;
-                            while len < CRUMB_LEN && *p.add(len) != 0 {
-                                len += 1;
-                            }
-                            wr(std::slice::from_raw_parts(p, len));
-                        }
-                        wr(b"\n");
-                        libc::_exit(76);
-                    }
-                }
-            }
-        });
+        start_watchdog();
     }
 
     pub struct Arena {
@@ -294,10 +303,13 @@ mod imp {
     }
 }
 
-#[cfg(miri)]
+#[cfg(any(miri, verif_heap))]
 mod imp {
     use super::*;
-    pub fn install() {}
+    pub fn install() {
+        #[cfg(not(miri))]
+        start_watchdog();
+    }
     pub struct Arena {
         buf: Vec<u8>,
         cap: usize,
@@ -329,11 +341,11 @@ pub use imp::{install, Arena};
 impl Arena {
     /// the slice handed out by the last `slice`/`output` call with the same arguments (contents untouched)
     pub fn slice_again(&mut self, len: usize, place: Place) -> &[u8] {
-        #[cfg(not(miri))]
+        #[cfg(not(any(miri, verif_heap)))]
         {
             &*self.slice(len, place)
         }
-        #[cfg(miri)]
+        #[cfg(any(miri, verif_heap))]
         {
             let _ = place;
             &self.peek()[..len]
